@@ -12,7 +12,9 @@ KEY_WORDS = ['gpl', '2.0', 'gnu', 'lesser', 'or', 'later', 'with', 'and', 'excep
              'x', 'bsd', 'classpath', 'v2', 'only', 'lgpl', 'İx', 'ΑΒ', 'ǅz',
              'GPL', 'Mit', 'a', 'b', 'a-b', 'c:d', 'e+', 'f_g']
 UNKNOWN_WORDS = ['foo', 'bar', 'orgpl', 'android', 'mito', 'gp', '2', 'withx', 'zz', 'İ',
-                 'q.r', 'andy', 'later', 'gnu', 'x', 'lesser']
+                 'q.r', 'andy', 'later', 'gnu', 'x', 'lesser',
+                 # an operator word followed by a key character that is not a letter is one word, not an operator
+                 'or-later', 'with-x', 'and.more', 'OR+', 'with:2']
 KEYWORDS = ('and', 'or', 'with')
 
 
